@@ -231,8 +231,10 @@ var portPool = []portSpec{{80, "http", "HTTP"}, {80, "tcp", "TCP"}, {443, "https
 	{80, "auto80", ""}, {27017, "mongo", "Mongo"}, {8080, "h2", "HTTP2"}}
 
 type world struct {
-	yamls    []string
-	features []string
+	yamls     []string
+	features  []string
+	translate bool     // the router's Service maps 443 -> 8443 and 80 -> 8080
+	sniffed   []string // "host:port" route names of auto-protocol services
 	bypass   []string // objects the admission validator rejects (with reason)
 }
 
@@ -584,7 +586,7 @@ func generate(s *xdsfake.FakeDiscoveryServer, p *model.Proxy, typeURL string, na
 type validator interface{ Validate() error }
 
 func genPushes(c *vlib.Collector, id *int, r *vlib.Rand) {
-	nWorlds := vlib.Scale(36, 700)
+	nWorlds := vlib.Scale(48, 900)
 	for wi := 0; wi < nWorlds; wi++ {
 		s := r.Sub()
 		baseID := *id
@@ -596,8 +598,31 @@ func genPushes(c *vlib.Collector, id *int, r *vlib.Rand) {
 		if !want {
 			continue
 		}
-		bypass := wi%3 == 2
-		w := genWorld(s, bypass)
+		var w *world
+		switch wi % 6 {
+		case 0:
+			w = genWorld(s, false)
+		case 1, 5:
+			w = &world{}
+			genGatewayScenario(s, w)
+			if s.Chance(30) {
+				genServiceEntry(s, w, 7, false)
+			}
+		case 2:
+			w = &world{}
+			genSniffScenario(s, w)
+			if s.Chance(30) {
+				genServiceEntry(s, w, 7, false)
+			}
+		case 3:
+			w = &world{}
+			genEnvoyFilterScenario(s, w)
+			if s.Chance(30) {
+				genSniffScenario(s, w)
+			}
+		default:
+			w = genWorld(s, true)
+		}
 		cfgs, err := w.configs()
 		if err != nil {
 			c.Violate(vlib.Violation{ID: baseID + 1, Kind: "harness", Detail: err.Error()})
@@ -671,6 +696,10 @@ func onePush(c *vlib.Collector, pid int, srv *xdsfake.FakeDiscoveryServer, p0 *m
 	}
 	pan, msg := vlib.Recover(func() {
 		p = srv.SetupProxy(p0)
+		if w.translate && p.Type == model.Router {
+			p.ServiceTargets = routerServiceTargets()
+			p.SetGatewaysForProxy(srv.PushContext())
+		}
 		res, err := generate(srv, p, v3.ClusterType, nil)
 		if err != nil {
 			violate("error", "CDS: "+err.Error())
@@ -707,6 +736,7 @@ func onePush(c *vlib.Collector, pid int, srv *xdsfake.FakeDiscoveryServer, p0 *m
 			listeners = append(listeners, m.(*listener.Listener))
 		}
 		rdsReq = append(rdsReq, xdstest.ExtractRoutesFromListeners(listeners)...)
+		rdsReq = append(rdsReq, w.sniffed...)
 		rdsReq = append(rdsReq, "9999", "unknown.nowhere.example:80", "no-such-route", "http.9999")
 		rdsReq = sets.SortedList(sets.New(rdsReq...))
 		res, err = generate(srv, p, v3.RouteType, rdsReq)
@@ -854,11 +884,21 @@ func onePush(c *vlib.Collector, pid int, srv *xdsfake.FakeDiscoveryServer, p0 *m
 	var lnames, cnames, rnames []string
 	for _, l := range listeners {
 		lnames = append(lnames, l.Name)
-		var ms []string
+		firstKind := map[string]string{}
 		for _, fc := range l.FilterChains {
-			ms = append(ms, chainKey(l, fc))
+			k := chainKey(l, fc)
+			kind := "plain"
+			if fc.TransportSocket != nil {
+				kind = "tls-terminating"
+			}
+			if prev, dup := firstKind[k]; dup {
+				ks := []string{prev, kind}
+				sort.Strings(ks)
+				diag = append(diag, "duplicate-filter-chain-match in listener "+l.Name+" ["+strings.Join(ks, "+")+"]: "+k)
+			} else {
+				firstKind[k] = kind
+			}
 		}
-		dupOf("duplicate-filter-chain-match in listener "+l.Name, ms)
 		for _, n := range xdstest.ExtractRoutesFromListeners([]*listener.Listener{l}) {
 			if !sets.New(rdsAns...).Contains(n) {
 				diag = append(diag, "rds-reference-unanswered: "+n)
@@ -947,6 +987,11 @@ func findingFor(diag []string, w *world) string {
 			// a locality's endpoint weights (one of them 4294967295) sum above uint32
 			if fid == "" {
 				fid = "C14-endpoint-weight-sum-overflow"
+			}
+		case strings.HasPrefix(d, "duplicate-filter-chain-match in listener 0.0.0.0_") && strings.Contains(d, " [plain+tls-terminating]: server_names:") && feats.Contains("gw"):
+			// an HTTPS (terminating) server and a passthrough TLS route claim the same SNI on one listener
+			if fid == "" || fid == "C14-endpoint-weight-sum-overflow" {
+				fid = "C14-gateway-https-vs-passthrough-sni-collision"
 			}
 		case strings.HasPrefix(d, "duplicate-filter-chain-match in listener 0.0.0.0_") && strings.HasSuffix(d, ": <nil>") && feats.Contains("gw"):
 			if fid == "" || fid == "C14-endpoint-weight-sum-overflow" {
